@@ -763,6 +763,11 @@ func corpus(prop string) ([]Input, []string) {
 			Ops: []Op{{Ev: "START_ACTIVITY", Body: "fail", Real: true}, {Ev: "GO_ERROR", Real: true}, {Ev: "RECOVER"}}})
 		add("real-stop-fails-then-go-error", Input{Level: "bare", Init: "CONFIGURED", Hooks: probes,
 			Ops: []Op{{Ev: "START_ACTIVITY", Real: true}, {Ev: "STOP_ACTIVITY", Body: "fail", Real: true}, {Ev: "GO_ERROR", Real: true}}})
+		// START - STOP - START - STOP - START on one environment: what each TransitionTasks message tells
+		// the tasks must be of THIS run, the cleared end stamp included (seeded regression C10-4)
+		add("real-start-stop-start", Input{Level: "bare", Init: "CONFIGURED", Hooks: probes,
+			Ops: []Op{{Ev: "START_ACTIVITY", Real: true}, {Ev: "STOP_ACTIVITY", Real: true}, {Ev: "START_ACTIVITY", Real: true},
+				{Ev: "STOP_ACTIVITY", Real: true}, {Ev: "START_ACTIVITY", Body: "fail", Real: true}, {Ev: "GO_ERROR", Real: true}}})
 		add("real-start-stop-start-fails-watcher", Input{Level: "bare", Init: "CONFIGURED", Hooks: probes,
 			Ops: []Op{{Ev: "START_ACTIVITY", Real: true}, {Ev: "STOP_ACTIVITY", Real: true},
 				{Ev: "START_ACTIVITY", Body: "fail", Real: true}, {Ev: "FORCE_ERROR", Real: true}}})
